@@ -41,7 +41,7 @@
                                    statements of ONE block of the source (body of the script, of a branch, loop, case), in order
       stretch_rendered_in_order    ... and the chunk is printed: its statements appear as consecutive instructions of the output
    7. Examples ex_accepted, mixed_argument_becomes_last_label, ex_script_hypotheses, ex_script_run, and the COUNTEREXAMPLE
-      final_end_arguments_dropped: "end(FOO, 1)" / "return(...)" as LAST statement of a chunk is printed as the bare word.
+      final_end_arguments_kept: "end(FOO, 1)" / "return(...)" as LAST statement of a chunk keeps its arguments (repair D22; found here).
    NOT proved: the converse of 6 (every source stretch is the statement list of some chunk; only the label multiset is
    conserved, WorkLabels.v); the in-place grammar => accepted direction for format()/moves() blocks (CmdArgs.v has it under
    its context-independent [wf_piece]); the switch-operand form of 5 (AutoVarParse.autovar_switch_with_arguments has the parser
@@ -742,12 +742,12 @@ Proof.
 Qed.
 Lemma is_endret_name c e : is_endret (SCmd c) = Some e -> cname c = if e then t "end" else t "return".
 Proof.
-  cbn [is_endret]. destruct (text_eqb (cname c) (t "end")) eqn:E1.
+  cbn [is_endret]. destruct (cargs c) as [|? ?]; [|discriminate]. destruct (text_eqb (cname c) (t "end")) eqn:E1.
   - intros H. inversion H; subst. apply text_eqb_true. exact E1.
   - destruct (text_eqb (cname c) (t "return")) eqn:E2; [|discriminate]. intros H. inversion H; subst. apply text_eqb_true. exact E2.
 Qed.
 
-(* the final end / return is written without arguments (it always is in real scripts; see [final_end_arguments_dropped]) *)
+(* the final end / return is written without arguments (it always is in real scripts; since repair D22 this is a theorem: endret_bare, final_bare) *)
 Definition final_endret_bare (cs : list cmd) : Prop :=
   forall pre c, cs = pre ++ [c] -> is_endret (SCmd c) <> None -> cargs c = [].
 
@@ -899,10 +899,14 @@ Proof.
     rewrite (line_groups consts a Hne). unfold groups_of at 1. reflexivity.
 Qed.
 
-Lemma final_endret h' src c : final_command h' src c ->
+Lemma final_endret h' src c : final_command h' src c -> (src_endret src = true -> cargs c = []) ->
   is_endret (SCmd c) = if text_eqb (tlit (cs_name src)) (t "end") then Some true
                        else if text_eqb (tlit (cs_name src)) (t "return") then Some false else None.
-Proof. intros (Hn & _). cbn [is_endret]. rewrite Hn. reflexivity. Qed.
+Proof.
+  intros (Hn & _) HB. cbn [is_endret]. rewrite Hn. unfold src_endret in HB. destruct (cargs c) as [|x xs]; [reflexivity|].
+  destruct (text_eqb (tlit (cs_name src)) (t "end")); [discriminate (HB eq_refl)|].
+  destruct (text_eqb (tlit (cs_name src)) (t "return")); [discriminate (HB eq_refl)|reflexivity].
+Qed.
 
 Lemma final_lines h' l cs : Forall plain_cmdsrc l -> Forall2 (final_command h') l cs -> flat_map render_cmd cs = flat_map src_line l.
 Proof.
@@ -914,22 +918,24 @@ Qed.
 Definition src_final_bare (l : list cmdsrc) : Prop := forall pre c, l = pre ++ [c] -> src_endret c = true -> cmd_groups c = [].
 Definition src_needs_return (l : list cmdsrc) : bool := match rev l with c :: _ => negb (src_endret c) | [] => true end.
 
-Lemma final_bare h' l cs : Forall2 (final_command h') l cs -> src_final_bare l -> final_endret_bare cs.
-Proof.
-  intros F HB pre c -> Hc. apply Forall2_app_inv_r in F. destruct F as (l1 & l2 & F1 & F2 & ->).
-  inversion F2 as [|src c' l2' cs' Hsc F3]; subst. inversion F3; subst.
-  assert (G : cmd_groups src = []).
-  { apply (HB l1 src eq_refl). unfold src_endret. rewrite (final_endret h' src c Hsc) in Hc.
-    destruct (text_eqb (tlit (cs_name src)) (t "end")); [reflexivity|].
-    destruct (text_eqb (tlit (cs_name src)) (t "return")); [reflexivity|congruence]. }
-  destruct Hsc as (_ & _ & Fa). rewrite G in Fa. inversion Fa. reflexivity.
-Qed.
+(* since repair D22 a command counts as the final end / return only when it is written without arguments *)
+Lemma endret_bare c : is_endret (SCmd c) <> None -> cargs c = [].
+Proof. cbn [is_endret]. destruct (cargs c); [reflexivity|congruence]. Qed.
 
-Lemma final_needs_return h' l cs : Forall2 (final_command h') l cs ->
+Lemma final_bare h' l cs : Forall2 (final_command h') l cs -> src_final_bare l -> final_endret_bare cs.
+Proof. intros _ _ pre c _ Hc. exact (endret_bare c Hc). Qed.
+
+Lemma final_needs_return h' l cs : Forall2 (final_command h') l cs -> src_final_bare l ->
   (match last_endret cs with Some _ => false | None => true end) = src_needs_return l.
 Proof.
-  intros F. unfold last_endret, src_needs_return. apply Forall2_rev' in F.
-  destruct F as [|src c rl rcs H _]; [reflexivity|]. rewrite (final_endret h' src c H). unfold src_endret.
+  intros F HB. unfold last_endret, src_needs_return. apply Forall2_rev' in F.
+  remember (rev l) as a eqn:Ea. remember (rev cs) as b eqn:Eb.
+  destruct F as [|src c rl rcs H _]; [reflexivity|].
+  assert (Hbare : src_endret src = true -> cargs c = []).
+  { intros Hs. assert (EL : exists l1, l = l1 ++ [src]).
+    { exists (rev rl). rewrite <- (rev_involutive l), <- Ea. reflexivity. }
+    destruct EL as [l1 EL]. pose proof (HB l1 src EL Hs) as G. destruct H as (_ & _ & Fa). rewrite G in Fa. inversion Fa. reflexivity. }
+  rewrite (final_endret h' src c H Hbare). unfold src_endret.
   destruct (text_eqb (tlit (cs_name src)) (t "end")); [reflexivity|].
   destruct (text_eqb (tlit (cs_name src)) (t "return")); reflexivity.
 Qed.
@@ -955,7 +961,7 @@ Proof.
   exists b, imp. split; [exact E|]. intros h h' ps tl optimize HA.
   destruct (K h h' ps HA) as (cs & Ecs & Fcs & _). rewrite Ecs.
   destruct (script_text_cmds tl (tlit name) g optimize cs (final_bare h' l cs Fcs HB)) as (is & E1 & E2).
-  exists is. split; [exact E1|]. rewrite E2, (final_lines h' l cs P Fcs), <- (final_needs_return h' l cs Fcs).
+  exists is. split; [exact E1|]. rewrite E2, (final_lines h' l cs P Fcs), <- (final_needs_return h' l cs Fcs HB).
   destruct (last_endret cs); reflexivity.
 Qed.
 
@@ -1228,16 +1234,17 @@ Example mixed_argument_becomes_last_label :
     map xname (htexts h') = [t "S_Text_0"; t "S_Text_1"; t "S_Text_2"].
 Proof. eexists _, _, _, _. split; [vm_compute; reflexivity|]. split; [vm_compute; reflexivity|]. repeat split; vm_compute; reflexivity. Qed.
 
-(* part 3, COUNTEREXAMPLE to "every command reaches the output with its arguments": a final end / return written with
-   arguments loses them (emitter.go:196 replaces the statement by the chunk terminator; chunk.go:87 prints the bare word) *)
+(* part 3: a final end / return written WITH arguments. Before repair D22 it lost them (emitter.go replaced the statement by
+   the chunk terminator, which is printed as the bare word) - found by this file's proof; now it is an ordinary command line
+   followed by the generated terminator *)
 Let c_lock : cmd := {| cname := t "lock"; cargs := []; ctok := T IDENT "lock"; Ast.cid := 9 |}.
 Let c_end : cmd := {| cname := t "end"; cargs := [t "FOO"; t "1"]; ctok := T IDENT "end"; Ast.cid := 7 |}.
-Example final_end_arguments_dropped :
+Example final_end_arguments_kept :
   forall optimize, exists is, emit_script None [] (t "S") true optimize [SCmd c_lock; SCmd c_end] = Emitter.Ok is /\
-    print_instrs None is = t "S::" ++ nl ++ tab ++ t "lock" ++ nl ++ tab ++ t "end" ++ nl ++ nl /\
+    print_instrs None is = t "S::" ++ nl ++ tab ++ t "lock" ++ nl ++ tab ++ t "end FOO, 1" ++ nl ++ tab ++ t "return" ++ nl ++ nl /\
     render_cmd c_end = tab ++ t "end FOO, 1" ++ nl.
 Proof. intros [|]; eexists; (split; [vm_compute; reflexivity|]); split; vm_compute; reflexivity. Qed.
-(* ... whereas the same command in any other position is printed in full *)
+(* ... as in any other position *)
 Example inner_end_arguments_kept :
   forall optimize, exists is, emit_script None [] (t "S") true optimize [SCmd c_end; SCmd c_lock] = Emitter.Ok is /\
     print_instrs None is = t "S::" ++ nl ++ tab ++ t "end FOO, 1" ++ nl ++ tab ++ t "lock" ++ nl ++ tab ++ t "return" ++ nl ++ nl.
